@@ -25,7 +25,7 @@ func ZZ_C18_ni(a []int) {
 		x := *base
 		u := zzBytes("user"+tag, a[1])
 		for i := range u {
-			dom = zzAnd(dom, zzAnd(u[i] >= 1, u[i] <= 0x7f))
+			dom = zzAnd(dom, zzAnd(u[i] >= 0x20, u[i] <= 0x7e))
 		}
 		x.username, x.hasUser = u, true
 		x.password, x.hasPass = zzBytes("pass"+tag, a[2]), true
